@@ -167,7 +167,10 @@ Definition put_block (s : state) (h : string) (d : content) : N * state :=
 Inductive op :=
 | Get (h : string)
 | Head (h : string)                      (* same handler as GET *)
-| Put (h : string) (d : content).
+| Put (h : string) (d : content)
+| PutShort (h : string) (d : content) (n : N).
+                                         (* PUT with Content-Length n whose body ends, or fails, after the
+                                            bytes d (clen d < n): a client that goes away in mid-upload *)
 
 Record resp := { code : N; body : option content; clength : option N }.
 
@@ -185,10 +188,20 @@ Definition handle_put (s : state) (h : string) (d : content) : resp * state :=
        | _ => let '(c, s') := put_block s h d in ({| code := c; body := None; clength := None |}, s')
        end.
 
+(* handlePUT when io.ReadFull(req.Body, buf) returns an error (io.EOF, io.ErrUnexpectedEOF or the
+   reader's own error): the same checks come first, then 500; PutBlock is never called *)
+Definition handle_put_short (s : state) (n : N) : resp :=
+  if BlockSize <? n then {| code := 413; body := None; clength := None |}
+  else match writable (vols s) with
+       | [] => {| code := 503; body := None; clength := None |}
+       | _ => {| code := 500; body := None; clength := None |}
+       end.
+
 Definition handle (s : state) (o : op) : resp * state :=
   match o with
   | Get h | Head h => (handle_get s h, s)
   | Put h d => handle_put s h d
+  | PutShort h d n => (handle_put_short s n, s)
   end.
 
 (* run a request sequence; the trace pairs every response with the state after the request *)
